@@ -106,8 +106,13 @@ func (dist *GParetoDistribution) LogPdf(r Scalar, x ConstScalar) error {
     r.Neg(r)
   } else {
     r.Mul(r, dist.Xi)
-    r.Log1p(r)
-    r.Mul(r, dist.cx2) // cx2 = -1/xi - 1
+    if dist.cx2.GetFloat64() == 0.0 && r.GetFloat64() == -1.0 {
+      // xi = -1 (uniform distribution) at the upper end point: 0*log(0)
+      r.SetFloat64(0.0)
+    } else {
+      r.Log1p(r)
+      r.Mul(r, dist.cx2) // cx2 = -1/xi - 1
+    }
   }
   r.Sub(r, dist.cs)    // cs  = log sigma
 
